@@ -400,8 +400,29 @@ def expr(fn, o, depth=14, transparent=TRANSPARENT, mut_as_phi=False):
         return ("phi", l, fields)
     if mut_as_phi and l in mut_borrowed(fn):
         return ("phi", l, fields)
-    d = ds[0]
+    return _from_def(fn, ds[0], fields, depth, transparent, mut_as_phi)
 
+
+def phi_alts(fn, term, depth=14, transparent=TRANSPARENT):
+    """('phi', l, sel) -> the value of each whole-local definition of l with sel applied (None when some definition
+    writes only a part of l, or l has no definition); any other term -> [term]"""
+    if not (isinstance(term, tuple) and term and term[0] == "phi"):
+        return [term]
+    ds = fn.defs().get(term[1], [])
+    if not ds:
+        return None
+    out = []
+    for d in ds:
+        if d[2] == "setdiscr":
+            return None
+        dest = d[3]["d"]
+        if place_parts(dest)[1]:
+            return None
+        out.append(_from_def(fn, d, term[2], depth, transparent, False))
+    return out
+
+
+def _from_def(fn, d, fields, depth, transparent, mut_as_phi):
     def with_fields(t, fs):
         if not fs:
             return t
@@ -553,3 +574,42 @@ def mut_borrowed(fn):
         except Exception:
             pass
     return c
+
+
+# ---- one-level inlining support for expression rules -------------------------------------------------------
+
+def local_callees(facts, fn, exclude=()):
+    """(bb, call terminator, callee Fn) for calls of fn that resolve to a non-closure function of the same crate whose
+    MIR is available: helper functions a maintainer may extract from (or inline into) an anchored function"""
+    out = []
+    for bb, t in fn.calls():
+        f = t["f"]
+        if f.get("name") in exclude:
+            continue
+        cand = None
+        for key in (f.get("res"), f.get("path")):
+            if key:
+                c = facts.get(key, fn.unit)
+                if c is not None and c.kind != "Closure" and c.crate == fn.crate and c.id != fn.id:
+                    cand = c
+                    break
+        if cand is not None and cand.d["argc"] == len(t["args"]):
+            out.append((bb, t, cand))
+    return out
+
+
+def subst_args(term, amap):
+    """replace ('arg', j, sel) leaves of a callee-side term by the caller-side terms amap[j] (selectors appended)"""
+    if not isinstance(term, tuple) or not term:
+        return term
+    if term[0] == "arg" and term[1] in amap:
+        base = amap[term[1]]
+        sel = term[2] if len(term) > 2 else ()
+        if not sel:
+            return base
+        if isinstance(base, tuple) and base and base[0] in ("arg", "phi"):
+            return (base[0], base[1], base[2] + sel)
+        if isinstance(base, tuple) and base and base[0] == "call":
+            return base[:3] + ((base[3] if len(base) > 3 else ()) + sel,) + tuple(base[4:])
+        return ("proj", base, sel)
+    return tuple(subst_args(x, amap) for x in term)
